@@ -99,4 +99,9 @@ theorem reassemble (m : ModeSem) (invert : Bool) (t : StudyTiling) (hwf : C08.WF
   · intro hA
     congr 2 <;> omega
 
+/-! ### non-vacuity -/
+
+/-- a 3-row rectangle at tile row 10 in a bottom-up tile: display row 11 shows image row `iy + 1`, which is stored row 244 -/
+example : sliceRev (255 - 10) 7 3 244 = some 8 ∧ sliceRev (255 - 10) 7 3 (255 - 11) = some (7 + (11 - 10)) := by decide
+
 end C08Px
